@@ -1,5 +1,5 @@
 (** * C12 — every resting price is on the tick grid; rejected creations leave no trace *)
-From Bourse Require Import Model.Types Model.Book Proofs.Grid.
+From Bourse Require Import Model.Types Model.Book Model.Obs Spec.RefBook Spec.Monitors Proofs.Grid Proofs.Refine Proofs.Volumes Proofs.LevelsAccount Proofs.RestGrid.
 
 (** An order can be created iff its limit price is a multiple of the tick size. *)
 Theorem c12_create_iff : forall s sd v tr p,
@@ -32,6 +32,47 @@ Theorem c12_grid_reachable : forall t0 tick tr ops s0 s,
   Forall (fun e => on_grid tick (e_order e)) (b_orders s).
 Proof. exact grid_reachable. Qed.
 
+(** The published per-level data accounts for all resting volume within its range:
+    in every reachable state and for every level count [L], the volumes of the [L]
+    published bid (ask) levels add up to the volume of the resting bids (asks)
+    whose price lies less than [L] ticks from the touch - no resting order inside
+    the range is missed or counted twice, and levels whose wrapped price falls
+    outside the book contribute nothing. [RInv] = the invariant [Inv] + every
+    order on the grid + every Active order priced at a multiple of the tick +
+    tick > 0; it holds of a new book and is preserved by every operation. *)
+Theorem c12_levels_account : forall L s ob,
+  RInv s -> observe L s = Ok ob ->
+  sumfst (ob_bid_levels ob) =
+    sum_vol (filter (fun o => in_levels Bid (b_tick s) L (ob_bid ob) (o_price o)) (resting Bid (ob_orders ob))) /\
+  sumfst (ob_ask_levels ob) =
+    sum_vol (filter (fun o => in_levels Ask (b_tick s) L (ob_ask ob) (o_price o)) (resting Ask (ob_orders ob))).
+Proof. exact levels_account_state. Qed.
+
+Theorem c12_levels_account_every_reachable_state : forall L t0 tick tr s0 ops s xs ob,
+  book_new t0 tick tr = Ok s0 -> Forall op_u32 ops -> run_outs s0 ops = Ok (s, xs) -> observe L s = Ok ob ->
+  sumfst (ob_bid_levels ob) =
+    sum_vol (filter (fun o => in_levels Bid (b_tick s) L (ob_bid ob) (o_price o)) (resting Bid (ob_orders ob))) /\
+  sumfst (ob_ask_levels ob) =
+    sum_vol (filter (fun o => in_levels Ask (b_tick s) L (ob_ask ob) (o_price o)) (resting Ask (ob_orders ob))).
+Proof.
+  intros L t0 tick tr s0 ops s xs ob H0 Hu H Hob. apply c12_levels_account; [|assumption].
+  eapply run_rinv; [eapply RInv_new; eassumption | eassumption | eassumption].
+Qed.
+
+(** Every resting (Active) order is priced at a multiple of the tick, after any modification. *)
+Theorem c12_resting_on_grid : forall s o s' x,
+  RInv s -> op_u32 o -> step s o = Ok (s', x) -> RInv s'.
+Proof. exact step_rinv. Qed.
+
+Example c12_levels_nonvacuous :
+  (do s0 <- book_new 0 5 true;
+   do (s, xs) <- run_outs s0 [OCreatePlace Bid 3 1 (Some 100); OCreatePlace Bid 4 1 (Some 90); OCreatePlace Bid 9 1 (Some 80);
+                              OCreatePlace Ask 2 2 (Some 105); OCreatePlace Ask 6 2 (Some 125); OModify 1 (Some 95) None];
+   do ob <- observe 3 s;
+   Ok (ob_bid_levels ob, ob_ask_levels ob, sumfst (ob_bid_levels ob), sumfst (ob_ask_levels ob)))
+  = Ok ([(3, 1); (4, 1); (0, 0)], [(2, 1); (0, 0); (0, 0)], 7, 2).
+Proof. vm_compute. reflexivity. Qed.
+
 Check c12_create_iff : forall s sd v tr p,
   (exists s' id, create_order s sd v tr (Some p) = (s', Created id)) <-> p mod b_tick s = 0.
 Check c12_grid_reachable : forall t0 tick tr ops s0 s,
@@ -54,3 +95,6 @@ Print Assumptions c12_market_always.
 Print Assumptions c12_rejected_no_trace.
 Print Assumptions c12_grid_step.
 Print Assumptions c12_grid_reachable.
+Print Assumptions c12_levels_account.
+Print Assumptions c12_levels_account_every_reachable_state.
+Print Assumptions c12_resting_on_grid.
